@@ -7,6 +7,7 @@
 package lua
 
 import (
+	"fmt"
 	"sort"
 )
 
@@ -129,6 +130,30 @@ func VerifHasContext(L *LState) bool { return L.ctx != nil }
 // prototypes
 
 func (fp *FunctionProto) VerifStringConstants() []string { return fp.stringConstants }
+
+// VerifProtoDump renders every field of a prototype tree (code, constants with their types, line
+// and debug tables, nested prototypes), for "executing a prototype never modifies it".
+func VerifProtoDump(p *FunctionProto) string {
+	var b []byte
+	var walk func(p *FunctionProto)
+	walk = func(p *FunctionProto) {
+		b = append(b, fmt.Sprintf("{%q %d %d u%d p%d v%d r%d code%v ", p.SourceName, p.LineDefined, p.LastLineDefined, p.NumUpvalues, p.NumParameters, p.IsVarArg, p.NumUsedRegisters, p.Code)...)
+		for _, c := range p.Constants {
+			b = append(b, fmt.Sprintf("%d:%q,", int(c.Type()), c.String())...)
+		}
+		b = append(b, fmt.Sprintf(" sc%q pos%v loc[", p.stringConstants, p.DbgSourcePositions)...)
+		for _, l := range p.DbgLocals {
+			b = append(b, fmt.Sprintf("%s:%d:%d,", l.Name, l.StartPc, l.EndPc)...)
+		}
+		b = append(b, fmt.Sprintf("] calls%v ups%q ", p.DbgCalls, p.DbgUpvalues)...)
+		for _, c := range p.FunctionPrototypes {
+			walk(c)
+		}
+		b = append(b, '}')
+	}
+	walk(p)
+	return string(b)
+}
 
 // ---------------------------------------------------------------------------------------------
 // tables
